@@ -23,7 +23,8 @@ PID = "C06"
 LEVEL = "exploration"
 RULE = (
     "Generated fault schedules (1-6 faults among CrashNode, PauseNode, NetworkPartition sym/asym, InjectLatency, "
-    "InjectPacketLoss(rate 1.0), ReduceCapacity; windows random / overlapping / nested / adjacent / identical / "
+    "InjectPacketLoss(rate 1.0), ReduceCapacity, plus in about a third of the network schedules a RandomPartition "
+    "(own RNG, mtbf 3-25 ms, mttr 2-20 ms) on node sets disjoint from / overlapping / equal to the partitioned pairs; windows random / overlapping / nested / adjacent / identical / "
     "sharing one edge, on the same and on different targets; handles cancelled before Simulation(), after it but "
     "before run(), and during the run before activation) applied to plain script entities, generator entities with "
     "multi-step processes (delays and SimFuture waits), a QueuedResource subclass and the library Server with "
@@ -42,6 +43,7 @@ ASSUMPTIONS = [
     "cancel() while a window is open is not generated (the statement only covers cancellation before activation)",
     "bystander logs are compared as multisets (same-instant order of pre-run vs run-created events is C01's subject)",
     "overlapping InjectLatency / ReduceCapacity windows: only 'some extra delay' / 'capacity below configured' is demanded",
+    "a live RandomPartition may block pairs inside its node set at instants the schedule does not determine: for such pairs only 'blocked while a NetworkPartition / loss window covers the send' is demanded, every other pair keeps the full two-sided oracle",
 ]
 MUST_OBSERVE = ["observations_checked"]
 
@@ -87,6 +89,8 @@ def windows_of(faults: list) -> tuple[list[dict], str | None]:
 def all_edges(wins: list[dict]) -> set[int]:
     ed = set()
     for w in wins:
+        if w["type"] == "RandomPartition":
+            continue
         ed.add(w["s"])
         if w["e"] < INF:
             ed.add(w["e"])
@@ -338,6 +342,13 @@ def evaluate(case: dict, faults: list, obs: dict, base: dict | None, stats: dict
             if ln.get("bidir"):
                 base_ns[(ln["b"], ln["a"])] = ln["base_ns"]
         parts = [w for w in eff if w["type"] == "NetworkPartition"]
+        rsets = [set(w["f"]["nodes"]) for w in eff if w["type"] == "RandomPartition"]
+        # how often a random heal / fault fell inside a NetworkPartition window (measured, for evidence)
+        for t_ev, kind_ev in obs.get("random_partition_events", []):
+            if any(w["s"] < t_ev < w["e"] for w in parts):
+                bump("random_partition_heals_inside_partition_windows" if kind_ev == "heal" else "random_partition_faults_inside_partition_windows")
+                if kind_ev == "heal":
+                    stats["randpart_seen"] = 1
         hset = {nn: {(r[0], r[2], r[3]) for r in obs["node_log"].get(nn, []) if r[1] == "h"} for nn in net["nodes"]}
         recv_at: dict = {}
         for nn in net["nodes"]:
@@ -380,6 +391,8 @@ def evaluate(case: dict, faults: list, obs: dict, base: dict | None, stats: dict
                     if i2:
                         stats["overlap_seen"] = 1
                     shape = word if i2 else f"no-window-ended-inside/{'asymmetric' if asym else 'symmetric'}"
+                    if rsets and not i2:
+                        shape += "/random-partition-on-network"
                     out.append(
                         V(
                             "partition-not-in-effect",
@@ -446,6 +459,10 @@ def evaluate(case: dict, faults: list, obs: dict, base: dict | None, stats: dict
                     rdown = [w for w in node_w.get(dst, []) if w["s"] <= hi and w["e"] >= lo]
                     if rdown or hi >= horizon - MS:
                         bump("probes_receiver_down")
+                    elif any(src in rs and dst in rs for rs in rsets):
+                        # both endpoints belong to a live RandomPartition: it may legitimately block the pair at
+                        # instants the schedule does not determine; only the covered-by-a-window direction is demanded
+                        bump("probes_excused_by_random_partition")
                     else:
                         fin = obs["final"]
                         comp = "Network"
@@ -559,8 +576,8 @@ def evaluate(case: dict, faults: list, obs: dict, base: dict | None, stats: dict
             out.append(V("release-raises", "ReduceCapacity", holder_shape(t + 1), ("rel", rn, t, jid), f"'{rn}': release({amount}) of job {jid} at t={t}ns raised: {msg}"))
 
     # ---------------- configured state after the last window
-    ends = [w["e"] for w in eff]
-    if eff and max(ends) < horizon - MS:
+    ends = [w["e"] for w in eff if w["type"] != "RandomPartition"]
+    if ends and max(ends) < horizon - MS:
         fin = obs["final"]
         bump("observations_checked")
         bump("final_states_checked")
@@ -573,9 +590,11 @@ def evaluate(case: dict, faults: list, obs: dict, base: dict | None, stats: dict
                     out.append(V("state-not-restored", "InjectPacketLoss", _nshape(nL), ("fin", key, "loss"), f"link {key} packet_loss_rate {st['loss']} after all windows ended"))
                 if abs(st["latency_ns"] - base_ns[(a, b)]) > TOL_NS:
                     out.append(V("state-not-restored", "InjectLatency", _nshape(nD), ("fin", key, "lat"), f"link {key} latency {st['latency_ns']}ns != base {base_ns[(a, b)]}ns after all windows ended"))
-            if fin.get("partitioned"):
+            frs = [set(w["f"]["nodes"]) for w in eff if w["type"] == "RandomPartition"]
+            stuck = [pr for pr in fin.get("partitioned", []) if not any(pr[0] in rs and pr[1] in rs for rs in frs)]
+            if stuck:
                 nP = len([w for w in eff if w["type"] == "NetworkPartition"])
-                out.append(V("state-not-restored", "NetworkPartition", _nshape(nP), ("fin", "part"), f"pairs still partitioned after all windows ended: {fin['partitioned'][:6]}"))
+                out.append(V("state-not-restored", "NetworkPartition", _nshape(nP), ("fin", "part"), f"pairs still partitioned after all windows ended: {stuck[:6]}"))
         for rn, st in fin["resources"].items():
             nC = len([w for w in eff if w["type"] == "ReduceCapacity" and w["f"]["res"] == rn])
             if abs(st["capacity"] - res_cfg[rn]) > EPS:
@@ -666,8 +685,8 @@ def _run(case: dict) -> Result:
         if k.endswith("_seen"):
             continue
         res.count(k, n)
-    res.nontrivial = bool(stats.get("overlap_seen") or stats.get("inflight_seen") or stats.get("cancel_seen"))
-    for k in ("overlap_seen", "inflight_seen", "cancel_seen"):
+    res.nontrivial = bool(stats.get("overlap_seen") or stats.get("inflight_seen") or stats.get("cancel_seen") or stats.get("randpart_seen"))
+    for k in ("overlap_seen", "inflight_seen", "cancel_seen", "randpart_seen"):
         if stats.get(k):
             res.count("cases_with_" + k[:-5])
     seen = {}
@@ -872,7 +891,7 @@ def _node_part(rng, case, ids, T_ms, n_faults, p_cancel, kinds=("plain", "gen", 
 
 
 def _net_part(rng, case, ids, T_ms, n_faults, p_cancel, scale=1.0):
-    k = rng.choice([3, 3, 4])
+    k = rng.choice([3, 4, 4, 5])
     names = [f"n{i}" for i in range(k)]
     case["nodes"].extend({"name": n, "kind": "plain"} for n in names)
     links = []
@@ -934,6 +953,30 @@ def _net_part(rng, case, ids, T_ms, n_faults, p_cancel, scale=1.0):
         if (src, dst) in touched or (dst, src) in touched:
             for t in _edge_times(rng, wins, p=0.5):
                 case["work"].append({"id": next(ids), "to": src, "t": t, "op": "send", "dst": dst})
+    # a RandomPartition living on the same Network as the window-based faults: its fault / heal cycles
+    # (own RNG, several per window) must leave the windows of the NetworkPartition targets intact
+    has_part = any(f["type"] == "NetworkPartition" for f in case["faults"])
+    if rng.random() < (0.5 if has_part else 0.1):
+        others = [n for n in names if n not in hot]
+        rel = rng.choice(["disjoint", "disjoint", "overlap", "superset", "hot-pair"])
+        if rel == "disjoint" and len(others) >= 2:
+            rnodes = others
+        elif rel == "overlap" and others:
+            rnodes = [rng.choice(hot)] + others
+        elif rel == "hot-pair":
+            rnodes = list(hot)
+        else:
+            rnodes = list(names)
+        f = {
+            "type": "RandomPartition",
+            "nodes": rnodes,
+            "mtbf_ms": rng.choice([3, 6, 12, 25]),
+            "mttr_ms": rng.choice([2, 5, 10, 20]),
+            "seed": rng.randrange(1, 10**6),
+        }
+        if rng.random() < p_cancel:
+            f["cancel"] = rng.choice(["pre", "post"])
+        case["faults"].insert(rng.randrange(0, len(case["faults"]) + 1), f)
     return names
 
 
